@@ -66,8 +66,13 @@ def gen_cases(tier, seed):
         b = int(rng.integers(1, n + 1))
         nt = int(rng.integers(2, 12))
         bt = int(rng.integers(1, nt + 1))
-        per = int(rng.integers(1, 5))
+        per = int(rng.integers(2, 8))
         bb = int(rng.integers(1, per + 1))
+        if k % 2 and per > 2:
+            # the last border batch of an epoch is a clamped (partial) one: per-facet count not a multiple of bb
+            nd = [x for x in range(2, per) if per % x]
+            if nd:
+                bb = int(rng.choice(nd))
         cart = bool(rng.integers(2))
         if gen == "nonstatio" and not cart:
             bt = b
